@@ -211,6 +211,11 @@ def e2e_histories(ctx):
     hs.append([("x.co", ([("a", "1")], "example.com"), None), ("x.co", ([("b", "2")], "EXAMPLE.COM"), None),
                ("example.com", None, None), ("badexample.com", None, "c=9")])
     hs.append([("x.co", ([("a", "1"), ("a1", "2")], "x.co"), None), ("x.co", None, None), ("sub.x.co", None, "c=9")])
+    # the caller's own cookie next to look-alikes in the jar (same pair, a prefix of a stored pair, a substring of the rendered
+    # jar value): it is always appended, never merged or dropped
+    for stored, client in (([("sid", "12")], "sid=1"), ([("sid", "1")], "sid=1"), ([("a", "1"), ("b", "2")], "a=1; b=2"),
+                           ([("a", "1"), ("b", "2")], "b=2"), ([("token", "xyz")], "n=xyz"), ([("a", "1")], "1"), ([("ab", "1")], "b=1")):
+        hs.append([("x.co", (stored, "x.co"), None), ("x.co", None, client), ("sub.x.co", None, client), ("y.co", None, client)])
     # a redirect answer is a handshake response too: its cookies are stored and replayed from the very next request on
     # (5th element: [(host the 302 points to, cookies set BY THE 302)], the last hop gets `resp`)
     t1, t2, t3 = ([("t", "1")], "x.co"), ([("u", "7")], "y.co"), ([("a", "2"), ("b", "1")], ".x.co")
